@@ -14,7 +14,7 @@ RULE = ('(a) Hypothesis generates a sequential program (<= 6 steps, handlers/res
         'output argument (save and copy-on-interception fail), metadata extractor raises or returns junk, cassette save '
         'raises, discard / forced sampling / ordinary exception / interrupt from the operation or from inside an '
         'intercepted body) plus a seeded sample of fault pairs (all pairs for programs <= 3 steps in the thorough tier), '
-        'each with recording enabled; and recording disabled / class skipped for a subset. (b) threaded programs: 2-3 '
+        'each with recording enabled (every fourth placement through the asynchronous wrapper cassette); and recording disabled / class skipped for a subset. (b) threaded programs: 2-3 '
         'workers inside one operation, one of them provoking a discard while the others are inside intercepted bodies '
         '(rendezvous). Oracle: differential against the undecorated twin built from the same description: same '
         'operation outcome, per call site the very object / exception object the wrapped body produced (identity) and '
@@ -83,7 +83,7 @@ def run_case(ctx, case):
     prog, flags = FR.apply_faults(case['prog'], case['faults'])
     if case.get('params'):
         prog['params'] = case['params']
-    fr = FR.FaultRun(prog, flags, enabled=case['enabled'], seed=7)
+    fr = FR.FaultRun(prog, flags, enabled=case['enabled'], seed=7, cassette=case.get('cassette', 'memory'))
     try:
         compare(fr, case)
     finally:
@@ -120,8 +120,10 @@ def enumerate_case(ctx, base):
             variants.append((True, {'skipped': True}))
         for enabled, params in variants:
             case = {'prog': prog, 'faults': fl, 'enabled': enabled, 'params': params}
+            if n % 4 == 1 and not any(f['kind'] == 'save_fails' for f in fl):
+                case['cassette'] = 'async'      # every fourth placement records through the asynchronous wrapper
             ctx.case(case, nontrivial(prog, fl), classes=tuple('fault:' + f['kind'] for f in fl) + (
-                'faults:%d' % len(fl), 'enabled' if enabled else 'disabled') + (
+                'faults:%d' % len(fl), 'enabled' if enabled else 'disabled', 'cassette:' + case.get('cassette', 'memory')) + (
                     ('skipped',) if params and params.get('skipped') else ()))
             try:
                 run_case(ctx, case)
